@@ -54,6 +54,8 @@ func (w *world) execVX(f []string) string {
 		order[i], order[j] = order[j], order[i]
 	}
 	victim := order[0]
+	hammers := rng.Intn(3)
+	w.count(fmt.Sprintf("vx:hammers:%d", hammers))
 	l := v.ls[victim]
 	ctx, cancel := context.WithCancel(context.Background())
 	cancel()
@@ -74,11 +76,24 @@ func (w *world) execVX(f []string) string {
 			}
 		})
 	}
+	// contention on the notifier's mutex (balanced create + Deregister of an unrelated value) widens every window
+	// that spans removeListener: a racer that finds the mutex taken parks there
+	var stop atomic.Bool
+	var hwg sync.WaitGroup
+	for i := 0; i < hammers; i++ {
+		pn.goSafe(&hwg, func() {
+			for !stop.Load() {
+				v.n.Listener(1000 + val).Deregister()
+			}
+		})
+	}
 	for spins := 0; int(ready.Load()) < g && spins < 1<<22; spins++ {
 		runtime.Gosched()
 	}
 	start.Store(true)
-	if !waitTimeout(&wg) {
+	okc := waitTimeout(&wg)
+	stop.Store(true)
+	if !waitTimeout(&hwg) || !okc {
 		w.fail("hang", "concurrent Deregister callers of one listener did not finish", map[string]string{"oracle": "hang", "api": "valuenotifier.Listener.Deregister", "mode": "stress"})
 
 		return ""
